@@ -8,7 +8,7 @@ Import ListNotations.
 Lemma denotes_right_lt ns : forall t p j n r,
   denotes ns p t -> has_id t j -> nth_error ns j = Some n -> n_right n = Some r -> r < length ns.
 Proof.
-  induction t as [i d k|i d k a IH|i d k a IH|i d k l IHl r0 IHr|i k a IH]; intros p j n r D Hj Hn Hr; simpl in D, Hj;
+  induction t as [i d k|i d k a IH|i d k a IH|i d k l IHl r0 IHr|b i k a IH]; intros p j n r D Hj Hn Hr; simpl in D, Hj;
     destruct D as (n0 & Hn0 & A).
   - subst j. rewrite Hn0 in Hn. injection Hn as <-. destruct A as (_ & _ & _ & _ & _ & A6 & _). congruence.
   - destruct A as (A1 & A2 & A3 & A4 & A5 & A6 & A7). destruct Hj as [->|Hj].
@@ -49,5 +49,6 @@ Lemma rtree_eqb_refl t : rtree_eqb t t = true.
 Proof.
   induction t; simpl; rewrite ?definition_eqb_refl, ?Nat.eqb_refl, ?opt_nat_eqb_refl; auto.
   - rewrite IHt1, IHt2. reflexivity.
+  - rewrite IHt. destruct b; reflexivity.
 Qed.
 
